@@ -256,7 +256,7 @@ func RegisterEnum[C any](name, rule string, complete bool, quick, thorough Budge
 		enum(func(c C) bool {
 			if err := evaluate(s, c, check); err != nil {
 				t.Errorf("%s: %v", name, err)
-				return false
+				return os.Getenv("VERIF_KEEP_GOING") != "" // development aid: list every failing case
 			}
 			return true
 		})
